@@ -181,6 +181,8 @@ pub enum COp {
     DrainFilter { v: usize, m: i64, take: i64 },
     Dedup { v: usize },
     DedupByKey { v: usize, m: i64 },
+    /// dedup_by(|a, b| a.val <= b.val): order-sensitive predicate; the arguments are logged
+    DedupBy { v: usize },
     Reserve { v: usize, n: i64, exact: bool, fallible: bool },
     ShrinkToFit { v: usize },
     CloneVec { v: usize, w: usize },
@@ -235,6 +237,7 @@ pub struct CEvent {
     pub all: Vec<Vec<[i64; 2]>>,  // contents of every vector slot after the call ([[-1,-1]] = no vector)
     pub bx: Vec<Vec<[i64; 2]>>,   // contents of every box slot after the call ([[-1,-1]] = none)
     pub pp: u8,        // 1 if the programmed callback panic fired during this call
+    pub cbargs: Vec<[i64; 2]>, // arguments (ids) of each call of a two-argument callback, in order
     pub alive2: u8,
     pub len: i64,
     pub cap: i64,
@@ -687,6 +690,20 @@ macro_rules! interp {
                                         t.val / m
                                     });
                                 }
+                            });
+                        }
+                        COp::DedupBy { v } => {
+                            let ev = base("dedup_by");
+                            self.call(ev, v as i64, -1, |s, ev| {
+                                let mut args: Vec<[i64; 2]> = Vec::new();
+                                if let Some(x) = s.slot(v).as_mut() {
+                                    x.dedup_by(|a, b| {
+                                        tick();
+                                        args.push([a.id, b.id]);
+                                        a.val <= b.val
+                                    });
+                                }
+                                ev.cbargs = args;
                             });
                         }
                         COp::Reserve { v, n, exact, fallible } => {
